@@ -23,14 +23,14 @@ impl FileWriter {
         let mut start_position = 0;
     
         for (file, source_path) in item.files.iter().zip(&result.source) {
-            if file.metadata.is_padding_file { continue; }
+            let end_position = start_position + file.read_length as usize;
+
+            if file.metadata.is_padding_file { start_position = end_position; continue; }
     
             let file_length = file.metadata.file_length;
             let file_export = &file.metadata.full_target;
     
-            if source_path.is_some() && file_export.eq(source_path.as_ref().unwrap().as_ref()) { continue; }
-
-            let end_position = start_position + file.read_length as usize;
+            if source_path.is_some() && file_export.eq(source_path.as_ref().unwrap().as_ref()) { start_position = end_position; continue; }
     
             let _file_write_guard = self.locks[&file.metadata.id]
                 .lock()
